@@ -1,6 +1,7 @@
 package props
 
 import (
+	"hash/crc32"
 	"bytes"
 	"fmt"
 	"os"
@@ -46,6 +47,7 @@ const (
 	vEmpty
 	vAppendedGarbage // one non-zero byte appended
 	vAppendedZero    // one zero byte appended (inside the zero padding of a short last slice, or a new window of zeros)
+	vSameCRC         // the first slice overwritten in place with other bytes that have the same CRC-32 (slice size >= 8)
 	nVariants
 )
 
@@ -77,6 +79,15 @@ func (m *c14Model) variant(f, w int) ([]byte, bool) {
 	case vFirstChanged:
 		nb := append([]byte{}, d...)
 		nb[0] ^= 0x80
+		return nb, true
+	case vSameCRC:
+		nb := append([]byte{}, d...)
+		if len(nb) >= 8 {
+			want := crc32.ChecksumIEEE(nb[:8])
+			nb[0] ^= 0x5a
+			nb[1] ^= 0xc3
+			scen.ForceCRC32(nb[:8], want)
+		}
 		return nb, true
 	case vLastDropped:
 		return d[:len(d)-1], true
@@ -359,7 +370,7 @@ func c14Build(name string, seed int64) *c14Model {
 	}
 	all := []int{vOrig, vMissing, vFirstChanged, vLastDropped, vPrepended, vOther, vEmpty, vAppendedGarbage, vAppendedZero}
 	switch name {
-	case "p2small", "p2large", "p2huge", "p2four", "p2stray-first", "p2stray-mid", "p2-16k":
+	case "p2small", "p2large", "p2huge", "p2four", "p2stray-first", "p2stray-mid", "p2-16k", "p2crc8":
 		// small model: a slice-aligned file and a file with a short last slice, both ending in zero bytes, so that
 		// "last byte dropped" / "zero byte appended" are length-only damage that leaves every slice in place
 		cfg := scen.P2Config{Sizes: []int{12, 6}, Slice: 4, Blocks: 4, Class: "trailzero"}
@@ -371,6 +382,10 @@ func c14Build(name string, seed int64) *c14Model {
 		}
 		if name == "p2four" {
 			cfg = scen.P2Config{Sizes: []int{5, 6, 9, 3}, Slice: 4, Blocks: 4, Class: "uniq"}
+		}
+		if name == "p2crc8" {
+			// 8-byte slices: the smallest size at which two different slices can share a CRC-32 (variant vSameCRC)
+			cfg = scen.P2Config{Sizes: []int{24, 13}, Slice: 8, Blocks: 3, Class: "uniq"}
 		}
 		if name == "p2-16k" {
 			// a file whose length is exactly the span of the 16k hash (its neighbours 16383 / 16385 are in C01's sets)
@@ -386,6 +401,9 @@ func c14Build(name string, seed int64) *c14Model {
 		m.variants = all
 		if name == "p2-16k" {
 			m.variants = []int{vOrig, vMissing, vFirstChanged}
+		}
+		if name == "p2crc8" {
+			m.variants = []int{vOrig, vMissing, vFirstChanged, vSameCRC}
 		}
 		if strings.HasPrefix(name, "p2stray") {
 			// a file that matches the recovery-file pattern but holds no packet of this set (the index of another set),
@@ -677,6 +695,7 @@ func init() {
 			g.Emit(&c14Case{Model: "p2small-disk"})
 			g.Emit(&c14Case{Model: "p1-disk"})
 			g.Emit(&c14Case{Model: "p2-16k"})
+			g.Emit(&c14Case{Model: "p2crc8"})
 			g.Emit(&c14Case{Model: "p2stray-first"})
 			g.Emit(&c14Case{Model: "p2stray-mid"})
 			g.Emit(&c14Case{Model: "p1full"})
